@@ -1,8 +1,11 @@
 """C02 - Method dispatch: verb, ANY and HEAD fallbacks, 405 with exact Allow."""
+import io
+import threading
+
 from harness import core
 from harness.core import Check, Finding
 from harness import router_gen as G
-from harness.c01 import play
+from harness.c01 import play as _play1
 
 VERBS = ['GET', 'POST', 'PUT', 'DELETE', 'PATCH', 'OPTIONS', 'HEAD']
 REG_NAMES = VERBS + ['ANY', 'ANY', 'GET', 'GET', 'get', 'Post', 'any', 'head', 'FOO', 'foo', 'Get']
@@ -30,6 +33,121 @@ def respell(rng, m):
     if k < .8:
         return m.lower()
     return m.capitalize()
+
+
+# ---------------------------------------------------------------------------------------------
+# the overlap axis: a second request is served from start to end, on another thread, while the first one is
+# in flight.  History op `['V', verb, path, where]`: the request of this op is in flight - `where` = 'before'
+# (before_request hook: nothing routed yet), 'handler' (inside its handler, when it reaches one) or 'after'
+# (after_request hook: the dispatcher has answered or raised its 404 / 405, nothing is written yet) - when the
+# request of the NEXT op (always a `W`) is served on a second thread.  Deterministic: the window starts the
+# thread and joins it.  The method tables are not touched by requests, so the model answers both as plain `W`.
+WINDOWS = ['before', 'handler', 'after', 'after']
+
+
+class Runner(G.Runner):
+    """G.Runner whose record of handler calls is kept per thread, plus overlapped requests"""
+
+    def __init__(self):
+        self._tl = threading.local()
+        self._window = None
+        super().__init__()
+        self.app.add_hook('before_request', lambda: self._enter('before'))
+        self.app.add_hook('after_request', lambda: self._enter('after'))
+
+    @property
+    def calls(self):
+        # (the registered handlers note their call here: that is the window inside the handler)
+        if getattr(self._tl, 'inflight', False):
+            self._enter('handler')
+        return self._tl.__dict__.setdefault('calls', [])
+
+    @calls.setter
+    def calls(self, v):
+        self._tl.calls = v
+
+    def _enter(self, where):
+        w = self._window
+        if w and w['where'] == where and w['thread'] == threading.get_ident():
+            self._window = None
+            t = threading.Thread(target=w['run'], daemon=True)
+            t.start()
+            t.join(60)        # (the watchdog of the outer request interrupts the wait)
+
+    def plain(self, verb, path):
+        """one request through Ombott.__call__, no watchdog of its own: (status, Allow, handler calls)"""
+        self.calls = []
+        got = {}
+
+        def sr(status, headers, exc_info=None):
+            got['status'] = int(status.split()[0])
+            got['headers'] = headers
+        environ = {
+            'REQUEST_METHOD': verb, 'PATH_INFO': path.encode('utf8').decode('latin1'),
+            'SERVER_NAME': 'h', 'SERVER_PORT': '80', 'wsgi.url_scheme': 'http',
+            'wsgi.input': io.BytesIO(b''), 'wsgi.errors': io.StringIO(), 'SERVER_PROTOCOL': 'HTTP/1.1',
+        }
+        self._tl.inflight = True
+        try:
+            out = self.app(environ, sr)
+        finally:
+            self._tl.inflight = False
+        if hasattr(out, 'close'):
+            out.close()
+        allow = [v for k, v in got.get('headers', []) if k.lower() == 'allow']
+        return got.get('status'), (allow[-1] if allow else None), list(self.calls)
+
+    def overlapped(self, verb_a, path_a, where, verb_b, path_b):
+        """((status, Allow, calls) of A, the same of B): B served whole while A is in the window"""
+        box = {}
+
+        def other():
+            try:
+                box['b'] = self.plain(verb_b, path_b)
+            except BaseException as e:      # noqa
+                box['b'] = ('exception %s: %s' % (type(e).__name__, e), None, [])
+        self._window = dict(where=where, thread=threading.get_ident(), run=other)
+        try:
+            a = core.with_timeout(lambda: self.plain(verb_a, path_a), 10)
+        finally:
+            self._window = None
+        if 'b' not in box:
+            # the window was not reached (no handler ran): serve B afterwards, the answers must be the same
+            box['b'] = core.with_timeout(lambda: self.plain(verb_b, path_b))
+            box['late'] = True
+        return a, box['b'], bool(box.get('late'))
+
+    def _ans(self, st):
+        status, allow, calls = st
+        if status == 200 and len(calls) == 1:
+            idx, mname, kw = calls[0]
+            return 'hit:%d:%s:%s' % (idx, core.hs(mname or ''), G.enc_kwargs(kw))
+        if status == 404:
+            return '404'
+        if status == 405:
+            return '405:' + core.hs(allow or '')
+        return 'status:%s' % status
+
+    def overlap(self, verb_a, path_a, where, verb_b, path_b):
+        env_a, env_b = self.env_for(path_a.strip('/')), self.env_for(path_b.strip('/'))
+        a, b, late = self.overlapped(verb_a, path_a, where, verb_b, path_b)
+        for verb, path, env, st in ((verb_a, path_a, env_a, a), (verb_b, path_b, env_b, b)):
+            self.ops.append('W|%s|%s|%s' % (core.hs(verb), core.hs(path), self._env_txt(env)))
+            self.answers.append(self._ans(st))
+        return late
+
+
+def play(run, ops):
+    """c01.play plus the overlapped pairs"""
+    i = 0
+    while i < len(ops):
+        op = ops[i]
+        if op[0] == 'V' and i + 1 < len(ops) and ops[i + 1][0] == 'W':
+            run.overlap(op[1], op[2], op[3], ops[i + 1][1], ops[i + 1][2])
+            i += 2
+        else:
+            _play1(run, [['W'] + list(op[1:3]) if op[0] == 'V' else op])
+            i += 1
 
 
 def gen_history(rng):
@@ -105,6 +223,19 @@ def gen_history(rng):
                 else:
                     vu = v.upper()
                     ops.append(['R', p, [vu] + (['GET'] if vu == 'HEAD' else []) + ['ANY']])
+        # overlapped pairs: two requests of this round in flight at the same time (two routes with their own
+        # method sets, a route and a path that matches nothing, the same route twice), every window
+        if rng.random() < .4:
+            for _ in range(rng.choice([1, 1, 2])):
+                pa = rng.choice(paths)
+                others = [p for p in paths if p != pa]
+                r = rng.random()
+                pb = rng.choice(others) if others and r < .7 else rng.choice(['/nope/x', '/a/b/c/d']) if r < .85 else pa
+                if rng.random() < .3:
+                    pa, pb = pb, pa
+                va, vb = (rng.choice(['BAR', 'BAR', 'HEAD', rng.choice(REQ_VERBS)]) for _ in range(2))
+                ops.append(['V', va, pa, rng.choice(WINDOWS)])
+                ops.append(['W', vb, pb])
     return ops
 
 
@@ -124,9 +255,16 @@ class C02(Check):
             'ANY and a made-up verb; clashing adds; overwrite=True; remove_method of some/all/absent names) with a '
             'probe round after EVERY edit: every route (and non-matching paths) x HEAD, an unregistered verb, '
             'registered and random verbs through Ombott.__call__ (status, Allow, handler, method) and '
-            'RadiRouter.resolve; non-trivial = the history contains a 405 or a fallback hit')
+            'RadiRouter.resolve; overlapped pairs in ~40% of the rounds: a second request (another route with its own '
+            'method set, a non-matching path, the same route) served from start to end on a second thread while the '
+            'first is in flight - in its before_request hook, inside its handler, or in its after_request hook (the '
+            'dispatcher has raised its 404/405, nothing written yet); in the model a request is a function of the '
+            'method tables only (driver op W returns the state unchanged), so both are answered as plain W; '
+            'non-trivial = the history contains a 405 or a fallback hit')
     assumptions = ['str.upper on method names is a parameter of the model (ASCII in the correspondence run)',
-                   'which route a path selects is C01\'s business (404/405 split is stated relative to the tree lookup)']
+                   'which route a path selects is C01\'s business (404/405 split is stated relative to the tree lookup)',
+                   'overlap of two requests is exercised at three windows of the first one (hooks, handler) with the second '
+                   'served whole; arbitrary line-level interleavings on one application are C08\'s business']
 
     def __init__(self):
         self.stats = {}
@@ -145,7 +283,7 @@ class C02(Check):
         out = []
         for _ in range(n):
             ops = gen_history(rng)
-            run = G.Runner()
+            run = Runner()
             try:
                 play(run, ops)
             except core.Hang:
@@ -161,14 +299,20 @@ class C02(Check):
                     for pth in list(last):
                         if last[pth][1]:
                             last[pth] = (kind, True)
-                elif op[0] in ('R', 'W') and ans.startswith('405'):
-                    pth = op[2] if op[0] == 'W' else op[1]
+                elif op[0] in ('R', 'W', 'V') and ans.startswith('405'):
+                    pth = op[2] if op[0] in ('W', 'V') else op[1]
                     k = last.get(pth)
                     if k and k[0]:
                         self._bump('seq-405-%s-405' % k[0])
                     if ans == '405:-':
                         self._bump('405-empty-allow')
                     last[pth] = (None, True)
+            for i, op in enumerate(ops):
+                if op[0] == 'V':
+                    self._bump('overlap-%s:%s+%s' % (op[3], run.answers[i].split(':')[0], run.answers[i + 1].split(':')[0]))
+                    if run.answers[i].startswith('405') and run.answers[i + 1].startswith('405') and \
+                            run.answers[i] != run.answers[i + 1]:
+                        self._bump('overlap-405s-with-different-allow')
             for op, ans in zip(run.ops, run.answers):
                 self._bump(op[0] + ':' + ans.split(':')[0])
                 if ans.startswith('405'):
@@ -187,12 +331,55 @@ class C02(Check):
     def oracle(self, ops):
         """independent statement check on the real code: shadow method tables kept from the ops,
         the route a path selects taken from the plain rule-by-rule matcher"""
-        from ombott.router.radirouter import Route
-        run = G.Runner()
+        run = Runner()
         rules = {}
         table = {}        # pattern -> {METHOD: handler id}
         pat_of = {}       # add op index -> pattern
         bad = []
+        done = set()
+
+        def judge(via, verb, path, cands, st, note, suffix):
+            """one request (st = its (status, Allow, calls) when it was already served) against the statement"""
+            if via == 'W':
+                vu = verb.upper()
+                cands = [vu] + (['GET'] if vu == 'HEAD' else []) + ['ANY']
+            spec = G.spec_resolve(rules, path.strip('/'))
+            if spec[0] == 'skip':
+                return
+            if via == 'R':
+                ep, err = run.router.resolve(path, cands)
+                if ep:
+                    status, allow, got = 200, None, (run._hid(ep[0]), ep[0].name)
+                else:
+                    status, allow, got = err[0], (err[2] if err[0] == 405 else None), None
+            else:
+                status, allow, calls = st if st is not None else run.wsgi_raw(verb, path)
+                got = (calls[0][0], calls[0][1]) if len(calls) == 1 else None
+            ctx = f'table={ {k: sorted(v) for k, v in table.items()}!r} via={via} request={(verb, path) if via == "W" else (path, cands)!r}' + \
+                (' ' + note if note else '')
+            if spec[0] == 'none':
+                if status != 404:
+                    bad.append(('non-matching-not-404' + suffix, f'path matches no route, answered {status}: {ctx}'))
+                return
+            t = table[spec[1]]
+            if status == 404:
+                bad.append(('matching-404' + suffix, f'path matches route {spec[1]!r}, answered 404: {ctx}'))
+                return
+            exp = next((m for m in cands if m in t), None)
+            if exp is None:
+                if status != 405:
+                    bad.append(('no-405' + suffix, f'no candidate of {cands} registered, answered {status}: {ctx}'))
+                else:
+                    want = sorted(t)
+                    have = allow.split(',') if allow else []
+                    if have != want:
+                        bad.append(('allow' + suffix, f'Allow {allow!r}, registered {want}: {ctx}'))
+            else:
+                if status == 405:
+                    bad.append(('false-405' + suffix, f'{exp} is registered, answered 405: {ctx}'))
+                elif status != 200 or got != (t[exp], exp):
+                    bad.append(('wrong-handler' + suffix, f'expected handler of {exp} (op {t[exp]}), got {got} status {status}: {ctx}'))
+
         for i, op in enumerate(ops):
             if op[0] == 'A':
                 _, rule, methods, name, ow = op
@@ -222,51 +409,23 @@ class C02(Check):
                 if op[1] in run.routes:
                     for m in op[2]:
                         table[pat_of[op[1]]].pop(m, None)
-            elif op[0] in ('R', 'W'):
+            elif op[0] in ('R', 'W', 'V'):
                 run.ops.append('N')          # keeps Runner positions (= handler ids) equal to op positions
                 run.answers.append('skip')
-                if op[0] == 'R':
-                    path, cands = op[1], list(op[2])
-                    if not cands:
-                        continue
+                if i in done:
+                    continue                 # the partner of an overlapped pair: judged with it
+                if op[0] == 'V' and i + 1 < len(ops) and ops[i + 1][0] == 'W':
+                    nxt = ops[i + 1]
+                    done.add(i + 1)
+                    a, b, late = run.overlapped(op[1], op[2], op[3], nxt[1], nxt[2])
+                    tag = 'overlapped(%s%s)' % (op[3], ', window not reached' if late else '')
+                    judge('W', op[1], op[2], None, a, '%s with %r' % (tag, nxt[1:]), ':overlap' if not late else '')
+                    judge('W', nxt[1], nxt[2], None, b, '%s inside %r' % (tag, op[1:3]), ':overlap' if not late else '')
+                elif op[0] == 'R':
+                    if op[2]:
+                        judge('R', None, op[1], list(op[2]), None, '', '')
                 else:
-                    verb = op[1].upper()
-                    path, cands = op[2], [verb] + (['GET'] if verb == 'HEAD' else []) + ['ANY']
-                spec = G.spec_resolve(rules, path.strip('/'))
-                if spec[0] == 'skip':
-                    continue
-                if op[0] == 'R':
-                    ep, err = run.router.resolve(path, cands)
-                    if ep:
-                        status, allow, got = 200, None, (run._hid(ep[0]), ep[0].name)
-                    else:
-                        status, allow, got = err[0], (err[2] if err[0] == 405 else None), None
-                else:
-                    status, allow, calls = run.wsgi_raw(op[1], op[2])
-                    got = (calls[0][0], calls[0][1]) if len(calls) == 1 else None
-                ctx = f'table={ {k: sorted(v) for k, v in table.items()}!r} via={op[0]} request={op[1:]!r}'
-                if spec[0] == 'none':
-                    if status != 404:
-                        bad.append(('non-matching-not-404', f'path matches no route, answered {status}: {ctx}'))
-                    continue
-                t = table[spec[1]]
-                if status == 404:
-                    bad.append(('matching-404', f'path matches route {spec[1]!r}, answered 404: {ctx}'))
-                    continue
-                exp = next((m for m in cands if m in t), None)
-                if exp is None:
-                    if status != 405:
-                        bad.append(('no-405', f'no candidate of {cands} registered, answered {status}: {ctx}'))
-                    else:
-                        want = sorted(t)
-                        have = allow.split(',') if allow else []
-                        if have != want:
-                            bad.append(('allow', f'Allow {allow!r}, registered {want}: {ctx}'))
-                else:
-                    if status == 405:
-                        bad.append(('false-405', f'{exp} is registered, answered 405: {ctx}'))
-                    elif status != 200 or got != (t[exp], exp):
-                        bad.append(('wrong-handler', f'expected handler of {exp} (op {t[exp]}), got {got} status {status}: {ctx}'))
+                    judge('W', op[1], op[2], None, None, '', '')
         return bad
 
     def search(self, rng, n, seeds):
@@ -275,6 +434,10 @@ class C02(Check):
         cases.append([['A', '/a', ['GET'], None, False], ['W', 'HEAD', '/a'], ['W', 'POST', '/a'], ['W', 'POST', '/b']])
         cases.append([['A', '/a', ['any', 'put', 'Get'], None, False], ['W', 'post', '/a'], ['D', 0, ['ANY']],
                       ['W', 'post', '/a'], ['W', 'HEAD', '/a']])
+        for w in WINDOWS[:3]:
+            cases.append([['A', '/a', ['GET'], None, False], ['A', '/u/<x>/e', ['put', 'DELETE'], None, False],
+                          ['V', 'POST', '/a', w], ['W', 'POST', '/u/m/e'], ['V', 'GET', '/a', w], ['W', 'BAR', '/u/m/e'],
+                          ['V', 'BAR', '/u/m/e', w], ['W', 'HEAD', '/a'], ['V', 'BAR', '/a', w], ['W', 'GET', '/nope']])
         for _ in range(n):
             cases.append(gen_history(rng))
         for ops in cases:
@@ -291,7 +454,7 @@ class C02(Check):
 
     def replay(self, data):
         ops = data['input']['ops']
-        run = G.Runner()
+        run = Runner()
         play(run, ops)
         return dict(ops=ops, implementation=list(zip(run.ops, run.answers)) if len(run.ops) < 40 else run.answers,
                     oracle=self.oracle(ops))
